@@ -18,8 +18,22 @@ import (
 // concrete definitions of the uninterpreted spec functions, used only when judging a concrete
 // observation (all arguments are ground there)
 var ufunConcrete = map[string]string{
+	"pow2u":  pow2uTable(),
+	"umul":   "(define-fun umul ((a Int) (b Int)) Int (* a b))",
 	"words":  "(define-fun-rec words ((x Int)) Int (ite (= x 0) 0 (ite (< x 0) (words (- x)) (ite (< x 18446744073709551616) 1 (+ 1 (words (div x 18446744073709551616)))))))",
 	"bitlen": "(define-fun-rec bitlen ((x Int)) Int (ite (= x 0) 0 (ite (< x 0) (bitlen (- x)) (ite (< x 18446744073709551616) (ite (< x 4294967296) (ite (< x 65536) (ite (< x 256) (ite (< x 16) (ite (< x 4) (ite (< x 2) 1 2) (ite (< x 8) 3 4)) (+ 4 (bitlen (div x 16)))) (+ 8 (bitlen (div x 256)))) (+ 16 (bitlen (div x 65536)))) (+ 32 (bitlen (div x 4294967296)))) (+ 64 (bitlen (div x 18446744073709551616)))))))",
+}
+
+func pow2uTable() string {
+	var b strings.Builder
+	b.WriteString("(define-fun pow2u ((y Int)) Int ")
+	for i := 0; i <= 520; i++ {
+		fmt.Fprintf(&b, "(ite (= y %d) %s ", i, Pow2(i).String())
+	}
+	fmt.Fprintf(&b, "(ite (> y 520) %s 1)", Pow2(521).String())
+	b.WriteString(strings.Repeat(")", 521))
+	b.WriteString(")")
+	return b.String()
 }
 
 // candidate models: the solver's model first; then, for big-integer inputs whose word length the model
@@ -73,11 +87,11 @@ func candidateModels(model map[string]string) []map[string]string {
 			hi.Neg(hi)
 			lo.Neg(lo)
 		}
-		choices[i] = []string{hi.String(), lo.String()}
+		choices[i] = []string{hi.String(), lo.String(), v.String()}
 	}
 	var rec func(i int, cur map[string]string)
 	rec = func(i int, cur map[string]string) {
-		if len(out) > 9 {
+		if len(out) > 12 {
 			return
 		}
 		if i == len(ins) {
@@ -116,7 +130,11 @@ func (p *Program) replayCandidates(fr *FuncResult, model map[string]string, work
 	imports := map[string]string{}
 	var decls []string
 	var calls []harnessCall
-	for _, cm := range candidateModels(model) {
+	cands := []map[string]string{model}
+	if wantGauge {
+		cands = candidateModels(model)
+	}
+	for _, cm := range cands {
 		me := &modelEnv{m: cm, pkg: fn.Pkg.Pkg, prog: p, wantGauge: wantGauge, imports: imports}
 		me.declBase = len(decls)
 		var argExprs []string
